@@ -47,6 +47,9 @@ pub async fn run_socket_worker(
     server_start_instant: ServerStartInstant,
     worker_index: usize,
 ) -> anyhow::Result<()> {
+    #[cfg(feature = "verif")]
+    aquatic_common::verif_fault!("http.socket.start");
+
     let config = Rc::new(config);
 
     let tcp_listeners = {
@@ -189,6 +192,9 @@ impl ListenerState {
         connection_id: ConnectionId,
         stream: TcpStream,
     ) {
+        #[cfg(feature = "verif")]
+        aquatic_common::verif_fault_basic!("http.socket.conn");
+
         #[cfg(feature = "metrics")]
         let active_connections_gauge = ::metrics::gauge!(
             "aquatic_active_connections",
